@@ -4,7 +4,7 @@
    then compares the implementation with an independent reference of the property's edge characterisation written in Python
    (stated in RULE). *)
 From Coq Require Import List Arith Bool.
-From PG Require Import Base.ListSet Base.Sx Graph.MGraph Graph.MSep C01.Model C19.Model.
+From PG Require Import Base.ListSet Base.Sx Graph.MGraph Graph.MSep C01.Model C19.Model C19.Fast.
 Import ListNotations.
 
 Definition run_case (s : sx) : sx :=
@@ -12,7 +12,7 @@ Definition run_case (s : sx) : sx :=
   match sx_nat (sx_nth s 0) with
   | 2 => L [L [of_nats (sort_set (V g)); L []; L []; L []; L []]; I 1; L []]
   | mode =>
-      let a := acy_model g in
+      let a := acy_fast g in      (* = acy_model g (Fast.acy_fast_eq): reachability table computed once *)
       let qs := sx_list (sx_nth s 2) in
       let q3 (q : sx) := (sx_nats (sx_nth q 0), sx_nats (sx_nth q 1), sx_nats (sx_nth q 2)) in
       let res :=
@@ -26,6 +26,6 @@ Definition run_case (s : sx) : sx :=
 
 Lemma run_case_model s : sx_nat (sx_nth s 0) <> 2 -> run_case s = C19.Model.run_case s.
 Proof.
-  intros H. unfold run_case, C19.Model.run_case.
+  intros H. unfold run_case, C19.Model.run_case. rewrite acy_fast_eq.
   destruct (sx_nat (sx_nth s 0)) as [|[|[|n]]]; try reflexivity. congruence.
 Qed.
